@@ -43,3 +43,62 @@ func verifC16TreeSort() {
 }
 
 func init() { verifHarnesses["verifC16TreeSort"] = verifC16TreeSort }
+
+// verifC16Layouts (shape L, goatlang against goatlang): one package whose hoistable declarations include functions
+// NAMED LIKE BUILTINS (len, append) is laid out in several permutations / file partitions; every layout must behave
+// like the first one (whatever that behaviour is: the comparison is between layouts, not with Go).
+var verifC16Hoist = []string{
+	"func len(xs []int) int {\n\treturn 70\n}\n",
+	"func use1(xs []int) int {\n\treturn len(xs)\n}\n",
+	"func use2(xs []int) int {\n\treturn len(xs) + 1\n}\n",
+	"type T struct {\n\tv int\n}\n",
+	"func (t *T) size() int {\n\treturn len([]int{t.v, t.v}) * 10\n}\n",
+	"func append(xs []int, v int) []int {\n\treturn []int{v, v, v}\n}\n",
+	"func grow(xs []int, v int) int {\n\tys := append(xs, v)\n\treturn ys[0] + use1(ys)\n}\n",
+}
+
+const verifC16Tail = "func Main(a int) int {\n\tt := &T{v: a}\n\treturn use1([]int{1, 2, 3})*1000 + use2([]int{1})*100 + t.size() + grow([]int{5}, a)\n}\n"
+
+// a layout = for every hoistable its file (0..2) and the order inside the files is the order of the permutation
+var verifC16Perms = [][]int{
+	{0, 1, 2, 3, 4, 5, 6}, {6, 5, 4, 3, 2, 1, 0}, {1, 2, 0, 4, 3, 6, 5}, {2, 1, 6, 0, 5, 3, 4}, {4, 6, 1, 2, 3, 0, 5}, {5, 0, 6, 4, 1, 2, 3},
+}
+
+func verifC16Run(perm []int, split int, a int32) (int32, string, bool) {
+	nfiles := 1 + split%3
+	bodies := make([]string, nfiles)
+	for k, h := range perm {
+		f := (k*(split+1) + split) % nfiles
+		bodies[f] += verifC16Hoist[h] + "\n"
+	}
+	bodies[split%nfiles] += verifC16Tail
+	files := map[string]string{}
+	for i, b := range bodies {
+		files["main/"+string(rune('a'+i*11))+".go"] = "package main\n\n" + b
+	}
+	rec := &verifRecorder{}
+	vm := New(WithStdout(rec))
+	if err := vm.Load(verifMkFS(files), "main"); err != nil {
+		return 0, "load: " + err.Error(), false
+	}
+	rets, err := vm.Call("main.Main", 1, Int32(a))
+	if err != nil || len(rets) != 1 {
+		return 0, "call failed", false
+	}
+	return rets[0].Int32(), rec.String(), true
+}
+
+func verifC16Layouts() {
+	a := verifInt32("a")
+	r0, o0, ok0 := verifC16Run(verifC16Perms[0], 0, a)
+	k := verifChoice("perm", len(verifC16Perms))
+	split := verifChoice("split", 6)
+	r, o, ok := verifC16Run(verifC16Perms[k], split, a)
+	verifAssert(ok == ok0, "C16/layouts/same-outcome-as-the-first-layout")
+	if ok && ok0 {
+		verifAssert(r == r0, "C16/layouts/same-result-as-the-first-layout")
+		verifAssert(o == o0, "C16/layouts/same-output-as-the-first-layout")
+	}
+}
+
+func init() { verifHarnesses["verifC16Layouts"] = verifC16Layouts }
